@@ -52,6 +52,10 @@ CHECKS = {
                 technique="exhaustive metamorphic enumeration: every distribution of per-process and per-loom attributes over the threads and every enumerated stream order of one system must give byte-identical rows and PRV; every single contradiction at every stream must be refused with a message",
                 text="Base system 2 looms x 2 processes x 2 threads x 2 CPUs under 3/5 rank configurations (incl. ranked and unranked looms mixed, rank order opposite to name order, physical ids opposite to indices): every way of carrying app_id and rank on the non-empty thread subsets of each process, every covering family of CPU sub-lists in every array order (ascending and descending), and stream directory creation orders, alone and combined: thread.row, cpu.row, thread.prv and cpu.prv must be byte-identical to the canonical distribution and the rows must follow the documented ordering. Every single contradiction (app id, rank incl. rank 0, nranks, index<->phyid both ways, duplicate TID, no CPUs, no app id, rank missing in one process) at every stream and in both enumeration orders must exit 1 with an error message.",
                 note="Trusted: lib/obs.py writer, documented ordering encoded in checks/c13.py:expected_rows. One base system size."),
+    "C17": dict(level="model_checking", engine="E1 mark_driver + E3 emu_server + real ovniemu", ref="DESIGN.md 5 (C17)",
+                technique="exhaustive enumeration of short mark-API programs on the real libovni, of all pairs of per-thread definitions through the real ovniemu, and explicit-state walks of mark events on the real emulator against a stack/scalar reference",
+                text="(1) all 8.4k/170k programs of <= 3/4 operations over mark_type/mark_label/push/pop/set (incl. zero and negative values, out-of-range and undefined types, redefinitions): the runtime aborts with a diagnostic iff a documented reason applies, otherwise stream.json holds exactly the definitions and the stream exactly the events; (2) all 169 pairs of per-thread definitions of a type: the emulator refuses iff title, channel type or a label conflict, and merges agreeing labels into type 100 of thread.pcf and cpu.pcf; (3) walks of push/pop/set with values {0,1,2} on a defined stack or single type, a second type and an undefined type, on two threads with pause/cool/warm/resume: mismatched pop, wrong channel kind, undefined type and zero refused; thread row shown while active, CPU row while running.",
+                note="Trusted: reference evaluators in checks/c17.py (from doc/user/runtime/mark.md and the API comments); walk depth 4/6."),
     "C18": dict(level="model_checking", engine="E3 emu_server + real ovnievents/ovnidump", ref="DESIGN.md 5 (C18)",
                 technique="exhaustive enumeration of all 94x94 printable event codes per model on the real handlers (fork-checkpoint server), bounded context search for every listed event, and complete decode comparison of ovnidump against an independent formatter",
                 text="For each of the eight models every printable (category, value) code that ovnievents does not list is injected, without payload and with a 16-byte payload, into a running in-CPU thread with the model enabled and must be refused (exemptions: OB?/OU?, frozen legacy list {6TC}); every listed event must be accepted in some context found by BFS over sequences of <= 3 listed events with arguments from {existing id, new id, 0}; every listed event x 5 argument values must be decoded by the real ovnidump into its description with the values substituted; ovnievents and the documentation must list the same signatures.",
@@ -94,7 +98,7 @@ def main():
                   "baseline_off_cmd": "cmake --build /repo/_build && ctest --test-dir /repo/_build -j8 --timeout 900",
                   "source_commits": [], "add_only": True},
         "engines": [
-            {"name": "E3 emu_server", "path": "harness/emu_server.c", "serves_properties": ["C04", "C05", "C06", "C07", "C08", "C18"],
+            {"name": "E3 emu_server", "path": "harness/emu_server.c", "serves_properties": ["C04", "C05", "C06", "C07", "C08", "C17", "C18"],
              "kind_free_text": "the unmodified emulator as a fork-checkpoint exploration server; Python BFS over (model state, implementation hash)"},
             {"name": "E1 rt_driver", "path": "harness/rt_driver.c", "serves_properties": ["C01", "C02"],
              "kind_free_text": "libovni compiled into the driver from the working tree (OVNI_MAX_EV_BUF overridable), interposed clock/write/abort; Python enumerates programs over buffer fill levels"},
